@@ -1077,6 +1077,55 @@ impl Drop for VersionRef<'_> {
     }
 }
 
+/////////////////////////////////////////// HoldingCursor ///////////////////////////////////////////
+
+/// A cursor bundled with whatever must outlive it: the version (so that the SSTs it opens lazily
+/// are not retired under it) and, for the key-value store, the memtables it iterates.
+pub(crate) struct HoldingCursor<C: Cursor, H> {
+    // NOTE:  Declaration order is drop order.  The cursor goes first.
+    cursor: C,
+    _hold: H,
+}
+
+impl<C: Cursor, H> HoldingCursor<C, H> {
+    pub(crate) fn new(cursor: C, hold: H) -> Self {
+        Self {
+            cursor,
+            _hold: hold,
+        }
+    }
+}
+
+impl<C: Cursor, H> Cursor for HoldingCursor<C, H> {
+    fn seek_to_first(&mut self) -> Result<(), SError> {
+        self.cursor.seek_to_first()
+    }
+
+    fn seek_to_last(&mut self) -> Result<(), SError> {
+        self.cursor.seek_to_last()
+    }
+
+    fn seek(&mut self, key: &[u8]) -> Result<(), SError> {
+        self.cursor.seek(key)
+    }
+
+    fn prev(&mut self) -> Result<(), SError> {
+        self.cursor.prev()
+    }
+
+    fn next(&mut self) -> Result<(), SError> {
+        self.cursor.next()
+    }
+
+    fn key(&self) -> Option<KeyRef<'_>> {
+        self.cursor.key()
+    }
+
+    fn value(&self) -> Option<&[u8]> {
+        self.cursor.value()
+    }
+}
+
 ////////////////////////////////////////////// LsmTree /////////////////////////////////////////////
 
 pub struct LsmTree {
@@ -1654,7 +1703,7 @@ impl LsmTree {
         let version_scan = version.range_scan(start_bound, end_bound, u64::MAX)?;
         let cursor = PruningCursor::new(version_scan, u64::MAX)?;
         let cursor = BoundsCursor::new(cursor, start_bound, end_bound)?;
-        Ok(cursor)
+        Ok(HoldingCursor::new(cursor, version))
     }
 }
 
